@@ -26,7 +26,7 @@ Definition obs_eqb (a b : obs) : bool :=
   && list_eqb (list_eqb Z.eqb) (o_alw a) (o_alw b)
   && Bool.eqb (o_paused a) (o_paused b) && list_eqb ob_eqb (o_list a) (o_list b)
   && optZ_eqb (o_cap a) (o_cap b) && Bool.eqb (o_mig a) (o_mig b) && optZ_eqb (o_data a) (o_data b)
-  && Bool.eqb (o_trap a) (o_trap b).
+  && Bool.eqb (o_trap a) (o_trap b) && list_eqb Bool.eqb (o_mgr a) (o_mgr b).
 
 (* ------------------------------------------------------------------ *)
 (* diff: replay through the model                                      *)
@@ -58,6 +58,7 @@ Definition diff (t : trace) : N :=
 Definition gb (p : obs) (a : addr) : Z := nth (N.to_nat a) (o_bal p) 0.
 Definition ga (p : obs) (o sp : addr) : Z := nth (N.to_nat sp) (nth (N.to_nat o) (o_alw p) []) 0.
 Definition gl (p : obs) (a : addr) : option bool := nth (N.to_nat a) (o_list p) None.
+Definition gm (p : obs) (a : addr) : bool := nth (N.to_nat a) (o_mgr p) false.
 Definition view_obs (p : obs) : view := mkView (o_supply p) (gb p) (ga p) (o_cap p) (o_data p).
 
 (* --- the clauses of the property text, one by one ---------------------------------- *)
@@ -92,7 +93,8 @@ Definition m_getters (c : cfg) (h' : hist) (q : obs) : bool :=
                         | None => true                      (* not read after this call *)
                         end) (universe c)
   && Bool.eqb (o_mig q) (h_armed h')
-  && negb (o_trap q).                                       (* no getter may trap *)
+  && negb (o_trap q)                                        (* no getter may trap *)
+  && forallb (fun x => Bool.eqb (gm q x) (h_mgr h' x)) (universe c).   (* "manager" role holders *)
 
 (* a cap-checked mint never lifts the supply above the cap; overflow => failure *)
 Definition m_cap (c : cfg) (p : obs) (o : op) (ok : bool) (q : obs) : bool :=
